@@ -319,6 +319,31 @@ def _concretize_hash(x, eng):
     raise Unsupported(f"hash of symbolic {type(x).__name__} with more than {CONCRETIZE_LIMIT} feasible values")
 
 
+def fix(x):
+    """force a symbolic value to a concrete python value by forking over its feasible values
+    (nondeterministic choice decided by the solver; one path per feasible value, bounded by
+    CONCRETIZE_LIMIT values per call site).  Plain values are returned unchanged."""
+    if not is_sym(x):
+        if _isinstance(x, (list, tuple)):
+            return type(x)(fix(y) for y in x)
+        if _isinstance(x, dict):
+            return {k: fix(v) for k, v in x.items()}
+        return x
+    eng = engine()
+    for _ in range(CONCRETIZE_LIMIT):
+        tag = eng.peek_tag()
+        v = tag[1] if tag is not None else concretize(x, eng.path_model())
+        if _isinstance(x, SymBool):
+            cond = x.e if v else z3.Not(x.e)
+        elif _isinstance(x, SymInt):
+            cond = x.e == (z3.BitVecVal(v, x.e.size()) if z3.is_bv(x.e) else z3.IntVal(v))
+        else:
+            cond = _z3and(ceq(a, b) for a, b in zip(x.items, v))
+        if eng.decide(cond, tag=("concretize", v), nocache=True):
+            return v
+    raise Unsupported(f"fix(): more than {CONCRETIZE_LIMIT} feasible values")
+
+
 def char_in(v, cls):
     if _isinstance(cls, _str):
         codes = sorted(set(_ord(c) for c in cls))
